@@ -222,6 +222,8 @@ def _worker_init(prop):
     warnings.filterwarnings("ignore")
     # defcon's __del__ methods run in arbitrary order at teardown and may raise; not our concern
     sys.unraisablehook = lambda *a: None
+    import logging
+    logging.disable(logging.CRITICAL)
     _MOD = importlib.import_module("props." + prop.lower())
 
 
